@@ -133,6 +133,14 @@ GENERIC_STAGES = ("transport", "status", "ctype", "utf8", "xml", "envelope",
                   "error", "fuzz")
 
 
+def every_op(d):
+    """Child shapes of the response element whose NAME collides with a
+    sibling element are driven on every operation of the shape in the quick
+    tier too (every operation family unpacks the response itself)."""
+    return d["k"] == "o_pv" and d["ty"] in ("IRETURNVALUE", "RETURNVALUE",
+                                            "ERROR")
+
+
 def obs_name(o):
     if o["kind"] == "value":
         return "value" if o["typeok"] else "BADTYPE"
@@ -291,13 +299,15 @@ def run(ctx):
             label="every pipeline run terminates; no stage is stuck "
             "(single-defect cells, liveness)")
     sens = []
-    leaks = ["ErrCodeInt", "IntInf", "NullInArray"]
+    # quick: one repaired leak and the two found by the latest extension of
+    # the response universe; thorough: every leak alone
+    leaks = ["ErrCodeInt", "RealBigInt", "ParamNamedElem"]
     if not quick:
         leaks = ["ErrCodeInt", "IntInf", "NullInArray", "ArraySizeInt",
                  "CimvalueRaw", "RetvalParamtypeKey", "PullEmptyResponse",
                  "EnumInstNoPath", "ResultIndexing", "PullNoTypeCheck",
                  "ExpatEncoding", "RedirectUrl", "Recursion", "MethodMisc",
-                 "EmbTypes"]
+                 "EmbTypes", "RealBigInt", "HexLongMsg", "ParamNamedElem"]
         ctx.tlc("RespPipelineImpl", "RespPipelineImplWide.cfg",
                 label="guarded pipeline refines the requirement, wide pairs",
                 timeout=1700)
@@ -339,7 +349,7 @@ def run(ctx):
         labs = by_shape.get(shape, [])
         if not labs:
             continue
-        generic = stage[defs[0]["k"]] in GENERIC_STAGES
+        generic = stage[defs[0]["k"]] in GENERIC_STAGES or every_op(defs[0])
         if quick and not generic:
             labs = [rng.choice(labs)]
         elif quick and defs[0]["k"] in ("e_env", "w_form", "s_err"):
